@@ -124,7 +124,7 @@ func NewCompactor(w Wiring, cfg Config, bkt objstore.InstrumentedBucket, dataDir
 		return nil, err
 	}
 
-	ignoreDeletionMarkFilter := block.NewIgnoreDeletionMarkFilter(logger, insBkt, deleteDelay/2, conc)
+	ignoreDeletionMarkFilter := block.NewIgnoreDeletionMarkFilter(logger, insBkt, deleteDelay/time.Duration(w.CompactIgnoreDelayDiv), conc)
 	duplicateBlocksFilter := block.NewDeduplicateFilter(conc)
 	noCompactMarkerFilter := compact.NewGatherNoCompactionMarkFilter(logger, insBkt, conc)
 	noDownsampleMarkerFilter := downsample.NewGatherNoDownsampleMarkFilter(logger, insBkt, conc)
@@ -152,14 +152,27 @@ func NewCompactor(w Wiring, cfg Config, bkt objstore.InstrumentedBucket, dataDir
 		enableVerticalCompaction = true
 	}
 
-	filters := []block.MetadataFilter{
-		timePartitionMetaFilter,
-		labelShardedMetaFilter,
-		consistencyDelayMetaFilter,
-		ignoreDeletionMarkFilter,
-		block.NewReplicaLabelRemover(logger, dedupReplicaLabels),
-		duplicateBlocksFilter,
-		noCompactMarkerFilter,
+	// the chain in the order written in cmd/thanos/compact.go (Wiring.CompactChain)
+	var filters []block.MetadataFilter
+	for _, e := range w.CompactChain {
+		switch e {
+		case "timePartitionMetaFilter":
+			filters = append(filters, timePartitionMetaFilter)
+		case "labelShardedMetaFilter":
+			filters = append(filters, labelShardedMetaFilter)
+		case "consistencyDelayMetaFilter":
+			filters = append(filters, consistencyDelayMetaFilter)
+		case "ignoreDeletionMarkFilter":
+			filters = append(filters, ignoreDeletionMarkFilter)
+		case "block.NewReplicaLabelRemover(logger, dedupReplicaLabels)":
+			filters = append(filters, block.NewReplicaLabelRemover(logger, dedupReplicaLabels))
+		case "duplicateBlocksFilter":
+			filters = append(filters, duplicateBlocksFilter)
+		case "noCompactMarkerFilter":
+			filters = append(filters, noCompactMarkerFilter)
+		default:
+			return nil, errors.Errorf("HARNESS-ERROR wiring drift: compact.go filter chain element %q", e)
+		}
 	}
 	// downsampling is enabled by default
 	filters = append(filters, noDownsampleMarkerFilter)
